@@ -38,6 +38,12 @@ CHECKS.update({
  "C15": ("fault_enumeration","end-of-connection cause enumeration + captured-context monitor + labelled goroutine-profile leak oracle",
    "End causes {client closer, FIN, RST, server-side context cancel} x work in progress {held unary, held notification, streaming, handler blocked in a reverse call, all, none} x handler reaction {at once, after 50 ms, 10 B, 1 MiB result} x inbound traffic {idle, notification flood}, with hook delays at ws.exit.* / h.lazy.acquire. Every handler context captured for the connection must be done; after the handlers returned, the goroutine profile is filtered by the pprof labels the library attaches (jrpc-mode=wsserver, jrpc-uuid) and any goroutine of a connection created by the scenario that survives the grace is a leak (stack = witness).",
    "Relies on the library's own pprof labels (blind -> inconclusive, never 'held'); 8 s grace.","2/C15"),
+ "C16": ("exploration","identity-echo monitor over multi-client reverse calls + fault proxy at each frame of the reverse exchange",
+   "1..8 simultaneously connected clients with distinct identities; concurrent forward calls each trigger nested reverse calls through the plain method, a client-side alias, an rpc_method tag, a failing and a panicking client-side handler; the identity returned through the forward call must be the caller's own and reverse errors must carry token and identity; presence matrix {ws,http,custom} x {with,without option}; FIN/RST at each of the four frames of the reverse exchange x 5 byte positions with the reverse call on a detached context, plus reverse calls issued after / blocked across the end of the connection: the server-side handler must come back within the grace.",
+   "Schedules sampled; 8 s grace.","2/C16"),
+ "C17": ("exploration","timed workloads through the proxy (blackhole, throttling) with 3/3 doubled-scale confirmation",
+   "Client (ping,timeout) x server ping {off, 50 ms, 5 s, 3x timeout}: held calls of 0.1x..6x timeout, idle gaps of 3x/8x, a silent subscription open for 5x, a 1 MiB response throttled to ~3x timeout must all survive with the proxy's accept count staying 1; BLACKHOLE while idle / call in flight / subscription open must fail pending calls and produce a redial within 5x timeout + 2 s. Wall-clock by nature: plain binary, <=4 children, and a failure counts only if reproduced 3/3 at doubled time scale.",
+   "Bounds are generous multiples of the timeout; unreproduced observations are inconclusive; default 30 s/5 s settings are not exercised.","2/C17"),
 })
 NA={}
 def main():
